@@ -353,6 +353,12 @@ func tagBucket(tag string) string {
 }
 
 func exec(line string) hx.Result {
+	res := exec1(line)
+	sg.Limit(&res)
+	return res
+}
+
+func exec1(line string) hx.Result {
 	pl, ok := sg.ParseLine(line)
 	if !ok {
 		return hx.Result{Out: "bad-op", Kind: "bad-op"}
